@@ -5,38 +5,38 @@ open Lean
 namespace FlowRecord.Drive
 open FlowRecord FlowRecord.Msgpack FlowRecord.Wire FlowRecord.Stream
 
-def hexNat (s : String) : Except String Nat :=
+def wireHexNat (s : String) : Except String Nat :=
   match unhex s with
   | some bs => pure (beDec bs)
   | none => throw "bad hex number"
 
-def natHex (k n : Nat) : Json := Json.str (hex (beEnc k n))
+def wireNatHex (k n : Nat) : Json := Json.str (hex (beEnc k n))
 
-def textOfHex (s : String) : Except String (List Nat) :=
+def wireTextOfHex (s : String) : Except String (List Nat) :=
   match unhex s with
   | some b => match codePointsOfBytes b with
     | some c => pure c
     | none => throw "bad utf-32"
   | none => throw "bad hex"
 
-def bytesOfHex (s : String) : Except String Bytes :=
+def wireBytesOfHex (s : String) : Except String Bytes :=
   match unhex s with
   | some b => pure b
   | none => throw "bad hex"
 
-def jStr (j : Json) : Except String String := j.getStr?
-def jArr (j : Json) : Except String (Array Json) := j.getArr?
+def wireJStr (j : Json) : Except String String := j.getStr?
+def wireJArr (j : Json) : Except String (Array Json) := j.getArr?
 
 def descOfJson (j : Json) : Except String Desc := do
-  let a ← jArr j
+  let a ← wireJArr j
   if a.size < 3 then throw "desc: need [name, fields, hash]"
-  let name ← textOfHex (← jStr a[0]!)
-  let fs ← jArr a[1]!
+  let name ← wireTextOfHex (← wireJStr a[0]!)
+  let fs ← wireJArr a[1]!
   let fields ← fs.toList.mapM fun f => do
-    let p ← jArr f
+    let p ← wireJArr f
     if p.size != 2 then throw "desc field: need [type, name]"
-    let t ← textOfHex (← jStr p[0]!)
-    let n ← textOfHex (← jStr p[1]!)
+    let t ← wireTextOfHex (← wireJStr p[0]!)
+    let n ← wireTextOfHex (← wireJStr p[1]!)
     pure (t, n)
   let h ← a[2]!.getNat?
   pure { name := name, fields := fields, hash := h }
@@ -46,22 +46,22 @@ def descToJson (d : Desc) : Json :=
              Json.num d.hash]
 
 partial def pvOfJson (j : Json) : Except String PV := do
-  let a ← jArr j
+  let a ← wireJArr j
   if a.size == 0 then throw "pv: empty"
-  let tag ← jStr a[0]!
+  let tag ← wireJStr a[0]!
   match tag with
   | "N" => pure .none
   | "B" => pure (.bool (← a[1]!.getBool?))
-  | "I" => pure (.int (← intOfString (← jStr a[1]!)))
-  | "F" => pure (.float (← hexNat (← jStr a[1]!)))
-  | "S" => pure (.str (← textOfHex (← jStr a[1]!)))
-  | "Y" => pure (.bytes (← bytesOfHex (← jStr a[1]!)))
-  | "L" => pure (.seq (← (← jArr a[1]!).toList.mapM pvOfJson))
-  | "D" => pure (.dict (← (← jArr a[1]!).toList.mapM pvOfJson))
-  | "TU" => pure (.dtUtc (← (← jArr a[1]!).toList.mapM (fun x => x.getNat?)))
-  | "TI" => pure (.dtIso (← textOfHex (← jStr a[1]!)))
-  | "R" => pure (.record (← descOfJson a[1]!) (← (← jArr a[2]!).toList.mapM pvOfJson))
-  | "G" => pure (.grouped (← textOfHex (← jStr a[1]!)) (← (← jArr a[2]!).toList.mapM pvOfJson))
+  | "I" => pure (.int (← intOfString (← wireJStr a[1]!)))
+  | "F" => pure (.float (← wireHexNat (← wireJStr a[1]!)))
+  | "S" => pure (.str (← wireTextOfHex (← wireJStr a[1]!)))
+  | "Y" => pure (.bytes (← wireBytesOfHex (← wireJStr a[1]!)))
+  | "L" => pure (.seq (← (← wireJArr a[1]!).toList.mapM pvOfJson))
+  | "D" => pure (.dict (← (← wireJArr a[1]!).toList.mapM pvOfJson))
+  | "TU" => pure (.dtUtc (← (← wireJArr a[1]!).toList.mapM (fun x => x.getNat?)))
+  | "TI" => pure (.dtIso (← wireTextOfHex (← wireJStr a[1]!)))
+  | "R" => pure (.record (← descOfJson a[1]!) (← (← wireJArr a[2]!).toList.mapM pvOfJson))
+  | "G" => pure (.grouped (← wireTextOfHex (← wireJStr a[1]!)) (← (← wireJArr a[2]!).toList.mapM pvOfJson))
   | "DESC" => pure (.desc (← descOfJson a[1]!))
   | t => throw s!"pv: unknown tag {t}"
 
@@ -69,8 +69,8 @@ partial def rvToJson : RV → Json
   | .none => Json.arr #["N"]
   | .bool b => Json.arr #["B", Json.bool b]
   | .int i => Json.arr #["I", intJson i]
-  | .float x => Json.arr #["F", natHex 8 x]
-  | .float32 x => Json.arr #["F32", natHex 4 x]
+  | .float x => Json.arr #["F", wireNatHex 8 x]
+  | .float32 x => Json.arr #["F32", wireNatHex 4 x]
   | .str s => Json.arr #["S", textJson s]
   | .bytes b => Json.arr #["Y", hexJson b]
   | .tuple xs => Json.arr #["T", Json.arr (xs.map rvToJson).toArray]
@@ -82,34 +82,34 @@ partial def rvToJson : RV → Json
       Json.arr (fs.map fun (t, f) => Json.arr #[textJson t, textJson f]).toArray]
 
 partial def mvOfJson (j : Json) : Except String MVal := do
-  let a ← jArr j
+  let a ← wireJArr j
   if a.size == 0 then throw "mv: empty"
-  match (← jStr a[0]!) with
+  match (← wireJStr a[0]!) with
   | "nil" => pure .nil
   | "b" => pure (.bool (← a[1]!.getBool?))
-  | "i" => pure (.int (← intOfString (← jStr a[1]!)))
-  | "f64" => pure (.f64 (← hexNat (← jStr a[1]!)))
-  | "f32" => pure (.f32 (← hexNat (← jStr a[1]!)))
-  | "s" => pure (.str (← bytesOfHex (← jStr a[1]!)))
-  | "y" => pure (.bin (← bytesOfHex (← jStr a[1]!)))
-  | "a" => pure (.arr (← (← jArr a[1]!).toList.mapM mvOfJson))
-  | "m" => pure (.map (← (← jArr a[1]!).toList.mapM mvOfJson))
-  | "x" => pure (.ext (← a[1]!.getNat?) (← bytesOfHex (← jStr a[2]!)))
+  | "i" => pure (.int (← intOfString (← wireJStr a[1]!)))
+  | "f64" => pure (.f64 (← wireHexNat (← wireJStr a[1]!)))
+  | "f32" => pure (.f32 (← wireHexNat (← wireJStr a[1]!)))
+  | "s" => pure (.str (← wireBytesOfHex (← wireJStr a[1]!)))
+  | "y" => pure (.bin (← wireBytesOfHex (← wireJStr a[1]!)))
+  | "a" => pure (.arr (← (← wireJArr a[1]!).toList.mapM mvOfJson))
+  | "m" => pure (.map (← (← wireJArr a[1]!).toList.mapM mvOfJson))
+  | "x" => pure (.ext (← a[1]!.getNat?) (← wireBytesOfHex (← wireJStr a[2]!)))
   | t => throw s!"mv: unknown tag {t}"
 
 partial def mvToJson : MVal → Json
   | .nil => Json.arr #["nil"]
   | .bool b => Json.arr #["b", Json.bool b]
   | .int i => Json.arr #["i", intJson i]
-  | .f64 x => Json.arr #["f64", natHex 8 x]
-  | .f32 x => Json.arr #["f32", natHex 4 x]
+  | .f64 x => Json.arr #["f64", wireNatHex 8 x]
+  | .f32 x => Json.arr #["f32", wireNatHex 4 x]
   | .str p => Json.arr #["s", hexJson p]
   | .bin p => Json.arr #["y", hexJson p]
   | .arr xs => Json.arr #["a", Json.arr (xs.map mvToJson).toArray]
   | .map xs => Json.arr #["m", Json.arr (xs.map mvToJson).toArray]
   | .ext t p => Json.arr #["x", Json.num t, hexJson p]
 
-def errName : Wire.Err → String
+def wireErrName : Wire.Err → String
   | .incomplete => "incomplete"
   | .invalid => "invalid"
   | .unknownExt => "unknownExt"
@@ -117,9 +117,9 @@ def errName : Wire.Err → String
   | .noDescriptor => "noDescriptor"
   | .badShape => "badShape"
 
-def endName : Stream.End → String
+def wireEndName : Stream.End → String
   | .eof => "eof"
-  | .error e => "error:" ++ errName e
+  | .error e => "error:" ++ wireErrName e
   | .notAStream => "notastream"
 
 def handleWire : Handler := fun op j =>
@@ -155,7 +155,7 @@ def handleWire : Handler := fun op j =>
         | some d => d.hash
         | none => 0
       let (rs, e) := readAll hashOf bs
-      pure (Json.mkObj [("records", Json.arr (rs.map rvToJson).toArray), ("end", Json.str (endName e))])
+      pure (Json.mkObj [("records", Json.arr (rs.map rvToJson).toArray), ("end", Json.str (wireEndName e))])
   | "wire_cuts" => some do
       -- for every cut position k = 0..len: (records yielded, end kind) of the model reader on the first k bytes
       let bs ← getHex j "hex"
@@ -167,7 +167,7 @@ def handleWire : Handler := fun op j =>
       let isRec : RV → Bool := fun r => match r with | .record _ _ => true | .grouped _ _ => true | _ => false
       let out := (List.range (bs.length + 1)).map fun k =>
         let (rs, e) := readAll hashOf (bs.take k)
-        Json.arr #[Json.num (rs.filter isRec).length, Json.str (endName e)]
+        Json.arr #[Json.num (rs.filter isRec).length, Json.str (wireEndName e)]
       pure (Json.mkObj [("cuts", Json.arr out.toArray)])
   | _ => none
 
